@@ -855,3 +855,26 @@ def run(eng: Engine, ck: Check):
     ok = len(keyv) == 1 and (phas(od.node, f'{datap}[KEY_SIZE:]')) and \
         bool(rcalls[0].args) and unparse(rcalls[0].args[0]) == keyv[0][1]['key']
     ck.ob('R-C01-OBFUSC', od, od.node, 'the decoder takes the key from the first KEY_SIZE bytes and the payload from the rest', ok, '', construct='decoder key position')
+
+    # ---- R-C01-DOC (advisory): second source for the pinned layout
+    # The repository ships a hand-written description of the protocol (docs/source/deprecated/MESSAGES.rst).  The pinned table is
+    # compared with it: codes and the flat type sequence of every Send / Receive list (tools/doc_xread.py).  The document is known to
+    # be imprecise, so every disagreement was read once and is listed with a verdict in tables/doc_xread_triage.json; a disagreement
+    # that is NOT listed is reported.  Advisory: a document-only edit must not fail a check about the code.
+    import importlib.util as _ilu
+    doc_path = os.path.join(os.environ.get('AIOSLSK_REPO') or getattr(repo, 'root', '/repo'), 'docs/source/deprecated/MESSAGES.rst')
+    if os.path.exists(doc_path):
+        spec = _ilu.spec_from_file_location('doc_xread', os.path.join(os.path.dirname(os.path.dirname(os.path.abspath(__file__))), 'tools', 'doc_xread.py'))
+        dx = _ilu.module_from_spec(spec)
+        spec.loader.exec_module(dx)
+        n_msgs, n_cmp, dis = dx.crossread(os.path.dirname(os.path.dirname(os.path.dirname(os.path.dirname(doc_path)))))
+        tri = dx.load_triage()
+        new = [(k, kind, txt) for k, kind, txt in dis if f'{k}|{kind}' not in tri]
+        ck.extra['doc_crossread'] = {'documented_messages': n_msgs, 'layouts_compared': n_cmp, 'agree': n_cmp - len({k for k, kind, _ in dis if kind not in ('undocumented', 'missing-in-table')}),
+                                     'disagreements_triaged': len(dis) - len(new), 'disagreements_new': len(new)}
+        ck.ob('R-C01-DOC', PRIM, 'docs/source/deprecated/MESSAGES.rst', f'the pinned wire table agrees with the protocol description shipped with the repository '
+              f'({n_cmp} layouts compared) except for the {len(dis) - len(new)} triaged disagreements', not new,
+              f'untriaged: {[f"{k} [{kind}]: {txt}" for k, kind, txt in new][:5]}', construct='document cross-read', advisory=True)
+    else:
+        ck.note('R-C01-DOC: docs/source/deprecated/MESSAGES.rst is not in this tree; cross-read skipped')
+
